@@ -260,7 +260,14 @@ where
     // ------------------------------------------------------------ point traces
     for _ in 0..3 {
         let ik = if rng.chance(0.3) { prog::Inputs::Hostile } else { prog::Inputs::Tame };
-        let q = prog::gen_inputs(rng, p.n_vars, ik);
+        let mut q = prog::gen_inputs(rng, p.n_vars, ik);
+        if p.nodes.len() <= 12 && rng.chance(0.6) {
+            // small programs: operands that tie (zeros of either sign, equal
+            // values) - how a tie is resolved is part of what a trace means
+            for v in q.iter_mut() {
+                *v = *rng.pick(&[0.0f32, -0.0, 0.0, -0.0, 1.0, -1.0]);
+            }
+        }
         let qf = to_fn(&q);
         let (_, tr) = point_eval(&f, &qf).map_err(|e| Viol { sig: format!("{name}:eval_error"), msg: e, detail: json!(null) })?;
         let Some(tr) = tr else {
@@ -519,6 +526,16 @@ impl Prop for C04 {
             cfg.consts = Consts::Tame;
         }
         cfg.n_outputs = if rng.chance(0.5) { 1 } else { 2 + rng.below(5) };
+        if rng.chance(0.06) {
+            // "unit" choice programs: one to three min/max/and/or (and sign
+            // flips) applied directly to the variables
+            cfg = GenCfg::new(1 + rng.below(3));
+            cfg.profile = Profile::Choice;
+            cfg.const_p = 0.2;
+            cfg.allow_un = vec![prog::Un::Neg, prog::Un::Abs];
+            cfg.n_outputs = 1;
+            st.inc("unit_choice_programs");
+        }
         let p = prog::generate(rng, &cfg);
         st.distinct(p.hash());
         st.sample(|| json!({"program": p.to_json()}));
